@@ -41,7 +41,13 @@ func genConf(r *gen.Rand) conf {
 	cf.Polite = cf.VStore && cf.Inv && r.Chance(2, 3)
 	cf.ReuseCtx = r.Bool()
 	cf.KeepSlices = cf.VStore && r.Chance(1, 3)
-	if r.Chance(1, 6) {
+	if r.Chance(1, 7) {
+		// keys that differ only in letter case (the app routes case-insensitively by default;
+		// the path and a custom KeyGenerator's result keep their spelling)
+		all := []string{"coupon/Ab12", "coupon/aB12", "coupon/AB12", "coupon/ab12", "Coupon/ab12", "coupon/ab13"}
+		gen.Shuffle(r, all)
+		cf.KeyNames = all[:r.Range(2, 5)]
+	} else if r.Chance(1, 6) {
 		// keys that look like the middleware's own key decoration
 		all := []string{"r", "r_HEAD", "r_GET", "r_POST", "r_body", "r_GET_body", "r_HEAD_body", "r_POST_body"}
 		gen.Shuffle(r, all[1:])
